@@ -107,3 +107,66 @@ Proof.
   exists es. split; [exact W|]. split; [lia|]. split; [exact Cc|]. split; [exact T|].
   split; [exact Fa|]. apply walk_localizable_ok. exact W.
 Qed.
+
+(* ---- DTD: the walk with the byte-order-mark exception ------------------------- *)
+(* the step contract of the DTD getNext: ordinary from offset 1 on; at offset 0
+   the entry starts after a leading mark; the text that is only the mark gives
+   the zero-width Junk (1,1) *)
+Definition dtd_contract (gn : unit -> str -> nat -> entry * unit) : Prop :=
+  forall s,
+    (forall c off, 1 <= off -> off < length s ->
+       entry_ok s off (fst (gn c s off)) /\ spans_inside (fst (gn c s off))) /\
+    (skip_of s < length s ->
+       entry_ok s (skip_of s) (fst (gn tt s 0)) /\ spans_inside (fst (gn tt s 0))) /\
+    (s = [bom] -> fst (gn tt s 0) = mk_junk (1, 1)).
+
+Lemma skipn_skip_of : forall s, skipn (skip_of s) s = body_of s.
+Proof.
+  intros [|c s]; simpl; [reflexivity|]. destruct (N.eqb c bom); reflexivity.
+Qed.
+
+Lemma skip_of_le : forall s, skip_of s <= 1.
+Proof. intros [|c s]; simpl; [lia|]. destruct (N.eqb c bom); lia. Qed.
+
+Lemma skip_of_only_bom : forall s, 0 < length s -> length s <= skip_of s -> s = [bom].
+Proof.
+  intros [|c s] H1 H2; simpl in *; [lia|].
+  destruct (N.eqb c bom) eqn:E; [|lia].
+  apply N.eqb_eq in E. subst c. destruct s; [reflexivity|simpl in H2; lia].
+Qed.
+
+Theorem walk_lossless_dtd : forall gn, dtd_contract gn -> forall s, lossless_dtd gn s.
+Proof.
+  intros gn Hgn s. unfold lossless_dtd. destruct (Hgn s) as [Hstep [Hfirst Hbom]].
+  assert (Hall : exists es, walk gn tt s = Ok es /\ length es <= length s /\
+                 concat (map (all_text s) es) = body_of s /\
+                 (s = [bom] \/ tiles s (skip_of s) es) /\ Forall spans_inside es).
+  { unfold walk. rewrite walk_loop_S. destruct (0 <? length s) eqn:E.
+    - apply Nat.ltb_lt in E.
+      destruct (Nat.lt_ge_cases (skip_of s) (length s)) as [Hlt|Hge].
+      + destruct (Hfirst Hlt) as [Hok Hin].
+        destruct (gn tt s 0) as [e c'] eqn:G. simpl in Hok, Hin.
+        destruct Hok as [H1 [H2 [H3 [H4 H5]]]].
+        destruct (walk_loop_from gn s 1 Hstep (length s) c' (snd (e_span e)))
+          as [es [W [L [Cc [T Fa]]]]]; [lia|lia|lia|].
+        rewrite W. exists (e :: es). split; [reflexivity|]. split; [simpl; lia|].
+        split; [|split].
+        * simpl. rewrite Cc. unfold all_text. rewrite H1, <- skipn_skip_of.
+          apply slice_skipn; lia.
+        * right. simpl. repeat split; auto.
+        * constructor; auto.
+      + pose proof (skip_of_only_bom s E Hge) as Hs. specialize (Hbom Hs).
+        destruct (gn tt s 0) as [e c'] eqn:G. simpl in Hbom. subst e. simpl.
+        rewrite walk_loop_done; [|subst s; simpl; lia].
+        exists [mk_junk (1, 1)]. split; [reflexivity|]. split; [simpl; lia|].
+        split; [|split].
+        * subst s. reflexivity.
+        * left. exact Hs.
+        * constructor; [|constructor]. intro Hk. discriminate.
+    - apply Nat.ltb_ge in E. destruct s; [|simpl in E; lia].
+      exists []. split; [reflexivity|]. split; [simpl; lia|]. split; [reflexivity|].
+      split; [right; simpl; lia|constructor]. }
+  destruct Hall as [es [W [L [Cc [T Fa]]]]]. exists es.
+  split; [exact W|]. split; [exact L|]. split; [exact Cc|]. split; [exact T|].
+  split; [exact Fa|]. apply walk_localizable_ok. exact W.
+Qed.
